@@ -1,5 +1,6 @@
 import Walrus.Driver.ArenaD
 import Walrus.Driver.SectionsD
+import Walrus.Driver.VisitD
 
 open Walrus.Driver
 
@@ -7,6 +8,7 @@ def dispatch (line : String) : String :=
   match words line with
   | "arena" :: rest => handleArena rest
   | "sect" :: rest => handleSect rest
+  | "visit" :: rest => handleVisit rest
   | _ => "bad-request"
 
 partial def loop (h : IO.FS.Stream) (out : IO.FS.Stream) : IO Unit := do
